@@ -1,3 +1,4 @@
+import F3.Proofs.SkelTieWal
 import F3.Proofs.NodeGen2
 import F3.Proofs.WalRead
 import F3.Gen.Wal
@@ -414,4 +415,20 @@ theorem purge_call_site :
 example : F3.Gen.Wal2.purgeDeletes 3 4 = true ∧ F3.Gen.Wal2.purgeDeletes 4 4 = false := by decide
 
 end Regenerated2
+end F3.Props.C11
+
+namespace F3.Props.C11
+section Skeletons
+
+/-- **The Go functions this property's models mirror still have the statement structure the models were written
+against**: each regenerated skeleton (pre-order list of statement kinds, `tools/go2lean/skel.go`) equals the pinned
+expectation of `F3/Proofs/SkelTie*.lean`. An added early return, cap, loop or dropped branch in one of these functions
+breaks this obligation even when no regenerated *expression* changes. -/
+theorem code_structure_as_modelled :
+    F3.Gen.SkelWal.skelWalAppend = F3.SkelTie.SkelWal.skelWalAppendExpected ∧
+    F3.Gen.SkelWal.skelWalPurge = F3.SkelTie.SkelWal.skelWalPurgeExpected ∧
+    F3.Gen.SkelWal.skelWalClose = F3.SkelTie.SkelWal.skelWalCloseExpected :=
+  ⟨F3.SkelTie.SkelWal.skelWalAppend_expected, F3.SkelTie.SkelWal.skelWalPurge_expected, F3.SkelTie.SkelWal.skelWalClose_expected⟩
+
+end Skeletons
 end F3.Props.C11
